@@ -31,6 +31,10 @@ struct Witness {
     started: bool,
     /// Completed rotations (sets of token senders), oldest first; only the last few are kept.
     rotations: Vec<Vec<u8>>,
+    /// The same rotations as exact pass sequences (repeated tokens included): the sufficient
+    /// clause only binds when nothing at all differed.
+    cur_passes: Vec<(u8, u8)>,
+    pass_rotations: Vec<Vec<(u8, u8)>>,
     ever_in_ring: bool,
 }
 
@@ -46,9 +50,14 @@ impl Witness {
             if !self.cur.contains(&sa) {
                 self.cur.push(sa);
             }
+            self.cur_passes.push((sa, da));
         }
         if da <= sa {
             if self.started {
+                self.pass_rotations.push(std::mem::take(&mut self.cur_passes));
+                if self.pass_rotations.len() > 4 {
+                    self.pass_rotations.remove(0);
+                }
                 let mut r = std::mem::take(&mut self.cur);
                 r.sort();
                 self.rotations.push(r);
@@ -58,12 +67,17 @@ impl Witness {
             }
             self.started = true;
             self.cur.clear();
+            self.cur_passes.clear();
         }
     }
     /// Number of identical complete rotations at the end of the history.
     fn identical_tail(&self) -> usize {
         let Some(last) = self.rotations.last() else { return 0 };
         self.rotations.iter().rev().take_while(|r| *r == last).count()
+    }
+    fn identical_tail_strict(&self) -> usize {
+        let Some(last) = self.pass_rotations.last() else { return 0 };
+        self.pass_rotations.iter().rev().take_while(|r| *r == last).count()
     }
     fn predecessor_of(&self, ts: u8) -> Option<u8> {
         let last = self.rotations.last()?;
@@ -105,6 +119,8 @@ struct St {
     has_token: bool,
     /// A token addressed to this station appeared on the bus since its own last token telegram.
     token_to_me_since_pass: bool,
+    /// The station's last token telegram was addressed to itself.
+    last_pass_to_self: bool,
     /// Poll time of the last valid telegram consumed / end of the last own transmission.
     last_valid_activity: u64,
 }
@@ -150,6 +166,7 @@ impl GapMonitor {
                     pre_in_ring: false,
                     has_token: false,
                     token_to_me_since_pass: false,
+                    last_pass_to_self: false,
                     last_valid_activity: 0,
                 })
                 .collect(),
@@ -204,6 +221,7 @@ impl Monitor for GapMonitor {
             s.holding = false;
             s.has_token = false;
             s.token_to_me_since_pass = false;
+            s.last_pass_to_self = false;
             s.last_valid_activity = _w.now;
         }
     }
@@ -254,7 +272,9 @@ impl Monitor for GapMonitor {
             }
             // anything but the answer of the polled address disturbs a post-claim scan
             if self.st[i].claim_phase {
-                let ok = matches!((self.st[i].awaiting, frame), (Some((polled, _)), Frame::Data { da, sa, fc, .. }) if *sa == polled && *da == ts && fc & 0x40 == 0);
+                // (the answer: a status reply, alone in the buffer, transmitted after the request)
+                let ok = matches!((self.st[i].awaiting, frame), (Some((polled, req)), Frame::Data { da, sa, fc, .. })
+                    if *sa == polled && *da == ts && fc & 0x40 == 0 && is_status_reply(frame) && *last && p.rx.len() == 1 && matches!(src, Some(x) if *x > req));
                 if !ok {
                     self.st[i].scan_polled = None;
                 }
@@ -275,6 +295,11 @@ impl Monitor for GapMonitor {
             }
             // status request addressed to us
             if frame.is_fdl_status_request() && frame.da() == Some(ts) && *last {
+                // (a request assembled from bytes of several transmissions is still a request the
+                // station may answer; only the obligation needs the single intact transmission)
+                if let (Some(sa), None) = (frame.sa(), src) {
+                    self.st[i].asked_by = Some((sa, usize::MAX));
+                }
                 if let (Some(sa), Some(x)) = (frame.sa(), src) {
                     self.st[i].asked_by = Some((sa, *x));
                     // obligation to answer: the request is the last thing on the bus and the
@@ -339,15 +364,21 @@ impl Monitor for GapMonitor {
                         s.claim_tokens = 0;
                         s.epoch_ns = None;
                         s.polls_in_visit = 0;
-                        s.scan_polled = Some(Vec::new());
+                        // The scan obligation needs a real claim: true silence on the wire (garbage
+                        // is activity too; the lenient rule above only excuses, O3).
+                        let last_any = bus.txs[..idx].iter().map(|t| t.end()).max().unwrap_or(0);
+                        s.scan_polled = if tx.start.saturating_sub(last_any) + tol >= timeout { Some(Vec::new()) } else { None };
                     }
                     if s.claim_phase {
                         s.claim_tokens += 1;
                     }
                     // A token to somebody else with no token for this station on the bus since its
                     // previous token telegram repeats / re-addresses that pass: not a new visit.
-                    let retry = *da != ts && !s.token_to_me_since_pass && !s.claim_phase && s.visit > 0;
+                    // (A pass to itself hands the station the token again without any telegram from
+                    // somebody else.)
+                    let retry = *da != ts && !s.token_to_me_since_pass && !s.last_pass_to_self && !s.claim_phase && s.visit > 0;
                     s.token_to_me_since_pass = false;
+                    s.last_pass_to_self = *da == ts;
                     s.last_valid_activity = tx.end();
                     // a discovered master gets the next token
                     if let Some(want) = s.next_token_to.take() {
@@ -542,7 +573,7 @@ impl Monitor for GapMonitor {
                         w.violate(self.prop, "status.truth", "not-ready-while-in-ring", Some(ts), format!("#{ts} is in the ring but reports 'not ready' to #{da}"));
                         return;
                     }
-                    if s.witness.identical_tail() >= 3 && s.witness.predecessor_of(ts) == Some(*da) && !s.witness.ever_in_ring {
+                    if s.witness.identical_tail_strict() >= 3 && s.witness.predecessor_of(ts) == Some(*da) && !s.witness.ever_in_ring {
                         w.violate(
                             self.prop,
                             "status.truth",
